@@ -60,6 +60,9 @@ type GopCache struct {
 	VideoSeqHeader                    []byte
 	AacSeqHeader                      []byte
 
+	// payload of the message cached in VideoSeqHeader (the cached block itself also carries the message timestamp)
+	videoSeqHeaderPayload []byte
+
 	gopRing              []Gop
 	gopRingFirst         int
 	gopRingLast          int
@@ -112,12 +115,14 @@ func (gc *GopCache) Feed(msg base.RtmpMsg, b []byte) bool {
 		}
 	case base.RtmpTypeIdVideo:
 		if msg.IsVideoKeySeqHeader() {
-			// GOPs cached under the previous sequence header cannot be decoded with the new one
-			if gc.VideoSeqHeader != nil && !bytes.Equal(gc.VideoSeqHeader, b) {
+			// GOPs cached under the previous sequence header cannot be decoded with a changed one. Only the content
+			// counts: an encoder that re-sends its unchanged header (with a later timestamp) keeps the cached GOPs
+			if gc.VideoSeqHeader != nil && !bytes.Equal(gc.videoSeqHeaderPayload, msg.Payload) {
 				gc.gopRingLast = 0
 				gc.gopRingFirst = 0
 			}
 			gc.VideoSeqHeader = b
+			gc.videoSeqHeaderPayload = append(gc.videoSeqHeaderPayload[:0], msg.Payload...)
 			Log.Debugf("[%s] cache %s video seq header. size:%d", gc.uniqueKey, gc.t, len(gc.VideoSeqHeader))
 			return true
 		}
@@ -149,6 +154,7 @@ func (gc *GopCache) Clear() {
 	gc.MetadataEnsureWithSetDataFrame = nil
 	gc.MetadataEnsureWithoutSetDataFrame = nil
 	gc.VideoSeqHeader = nil
+	gc.videoSeqHeaderPayload = nil
 	gc.AacSeqHeader = nil
 	gc.gopRingLast = 0
 	gc.gopRingFirst = 0
